@@ -1,6 +1,6 @@
-(** C12 - placeholder statements (grow). *)
+(** C12 - the client's screen is the exact composition of everything the server sent. *)
 From Coq Require Import ZArith List Bool Lia.
-From VD Require Import Base.Bytes Model.Image Model.Screen.
+From VD Require Import Base.Bytes Model.Image Model.Screen Gen.ScreenOps Proofs.ScreenTie.
 Import ListNotations.
 Open Scope Z_scope.
 
@@ -86,3 +86,24 @@ Proof.
   - repeat constructor; cbn; lia.
   - eexists. split; [vm_compute; reflexivity|]. split; vm_compute; reflexivity.
 Qed.
+
+(** The model's updateRectangle and updateDesktopSize are the source's own: [Gen/ScreenOps.v] is regenerated on every run
+    by symbolic execution of the two methods of client.py (gen/screen.py: Image.new / paste / size, with and without an
+    existing screen), and the composition theorems above are about exactly these terms. *)
+Theorem C12_update_is_source : forall l x y w h data u,
+  data <> [] -> frombytes (l_mode l) w h data = Some u ->
+  update_rect l x y w h data =
+  Some (draw_cursor (with_screen l (Some (match screen l with
+                                          | None => gen_update_first x y w h u
+                                          | Some s => gen_update_later s x y w h u
+                                          end)))).
+Proof. exact update_rect_is_source. Qed.
+Print Assumptions C12_update_is_source.
+
+Theorem C12_resize_is_source : forall l w h,
+  resize l w h =
+  if gen_resize_ok w h
+  then Some (with_screen l (Some (match screen l with Some s => gen_resize_later s w h | None => gen_resize_first w h end)))
+  else None.
+Proof. exact resize_is_source. Qed.
+Print Assumptions C12_resize_is_source.
